@@ -62,6 +62,9 @@ def _wrap_bfs():
     _wrapped[0] = True
 
 
+reset_world = mc.reset_world
+
+
 def gen_case(rng, tier):
     r = rng.random()
     if r < 0.35:
